@@ -392,6 +392,52 @@ func c08Run(c *core.Ctx) {
 			}
 		}
 	}
+	// (0b) a lexer plugin that consumes text itself (block comments, read with ReadChar before it calls next()):
+	// every family program with a block comment in front of each single token; the segments must link the same
+	// lexemes - the oracle reads the source with the consumed bytes blanked, positions are unchanged
+	{
+		skipPB := func() *parser.Builder {
+			lb := c10UsageBuilder("skipper")
+			return parser.NewBuilder(lb)
+		}
+		gen.Programs(1, func(prog []*gen.Node, name string) {
+			if !c.Next() || c.Tick() {
+				return
+			}
+			toks := gen.UnparseProgram(prog, false)
+			for g := 0; g < len(toks); g++ {
+				var sb strings.Builder
+				for i, t := range toks {
+					if i > 0 {
+						sb.WriteString(" ")
+					}
+					if i == g {
+						sb.WriteString("/* c */ ")
+					}
+					sb.WriteString(t.Text)
+				}
+				src := sb.String()
+				blank, ok := c10Blanked(src)
+				if !ok || strings.Contains(src, "`") {
+					continue
+				}
+				c.Cur(src)
+				for _, ci := range c08Quick[:2] {
+					c.Inc("skipper_plugin_maps")
+					k, d, n, acc := c08CheckTree(parseWith(skipPB(), src), blank, c08Cfgs[ci])
+					if !acc {
+						continue
+					}
+					c.Inc("maps_checked")
+					c.Count("segments_checked", int64(n))
+					if k != "" && c.ShrinkOK("skipper"+k) {
+						pl, _ := json.Marshal(c08Payload{Src: src, Cfg: ci, Sep: -1})
+						c.Violate(core.Violation{Kind: k, Config: c08Cfgs[ci].String() + ", lexer plugin that skips block comments", Case: fmt.Sprintf("%q", src), Detail: d, Payload: pl, Size: len(toks) + 3})
+					}
+				}
+			}
+		})
+	}
 	// (1) all token sequences <= n in space and LF layouts
 	n := 4
 	if c.Thorough() {
@@ -510,6 +556,14 @@ func c08Replay(pl json.RawMessage) (string, []core.Violation) {
 	var p c08Payload
 	json.Unmarshal(pl, &p)
 	out := fmt.Sprintf("source %q configuration %s", p.Src, c08Cfgs[p.Cfg])
+	if p.Sep == -1 {
+		out += ", lexer plugin that skips block comments"
+		blank, _ := c10Blanked(p.Src)
+		if k, d, _, _ := c08CheckTree(parseWith(parser.NewBuilder(c10UsageBuilder("skipper")), p.Src), blank, c08Cfgs[p.Cfg]); k != "" {
+			return out, []core.Violation{{Kind: k, Config: c08Cfgs[p.Cfg].String(), Case: fmt.Sprintf("%q", p.Src), Detail: d}}
+		}
+		return out, nil
+	}
 	if p.Sep > 0 {
 		out += ", plugin node writing " + c08SepNames[p.Sep-1]
 		if k, d, _, _ := c08CheckTree(parseWith(c08PluginPB(p.Sep-1), p.Src), p.Src, c08Cfgs[p.Cfg]); k != "" {
@@ -526,7 +580,7 @@ func c08Replay(pl json.RawMessage) (string, []core.Violation) {
 func init() {
 	core.Register(&core.PropSpec{
 		ID: "C08", Level: "exploration",
-		Rule:     "every accepted program of the universes (ALL token sequences <= n, n=4 quick / 5 thorough, in space and LF layouts; the statement families in every layout with <= k deviations over gaps {LF, none, comment, blank line, LF+indent, tab} and dropped semicolons; every expression chain <= depth 2 on one line and one token per line; multi-line, re-quoted and non-ASCII literals followed by more tokens) is compiled with a source map in compact mode and in 4 (quick) / all 21 (thorough) pretty option sets; the mappings are decoded by the independent decoder; for EVERY segment the independent tokenizer must find a token starting exactly at the generated position in Code and one starting exactly at the source position in the source, of the same kind and lexeme (string/template literals: same kind); segments are ordered by generated position; a segment at an identifier carries that identifier as name, every identifier token of Code is covered by such a segment, name indices are in range and names unique. A column is accepted if it is right in UTF-16 units or in bytes. non-trivial = maps of multi-line sources Added: generated code is split into lines as the source-map builder is specified to (LF, CRLF, lone CR); CRLF and CRLF+comment gaps; 8 program prefixes (blank lines, comments, CRLF before the first statement); compiler reuse (a compiler that compiled three other programs before - one of them ending in blank lines and a comment - must emit the same code, mappings and names); the scale family (long lines: three-digit VLQ deltas; hundreds of names and lines); plugin expression nodes that write a separator through each public writer method (WriteRune / WriteString with and without line breaks, WriteNewline, WriteSpace) around operands of 4 programs.",
+		Rule:     "every accepted program of the universes (ALL token sequences <= n, n=4 quick / 5 thorough, in space and LF layouts; the statement families in every layout with <= k deviations over gaps {LF, none, comment, blank line, LF+indent, tab} and dropped semicolons; every expression chain <= depth 2 on one line and one token per line; multi-line, re-quoted and non-ASCII literals followed by more tokens) is compiled with a source map in compact mode and in 4 (quick) / all 21 (thorough) pretty option sets; the mappings are decoded by the independent decoder; for EVERY segment the independent tokenizer must find a token starting exactly at the generated position in Code and one starting exactly at the source position in the source, of the same kind and lexeme (string/template literals: same kind); segments are ordered by generated position; a segment at an identifier carries that identifier as name, every identifier token of Code is covered by such a segment, name indices are in range and names unique. A column is accepted if it is right in UTF-16 units or in bytes. non-trivial = maps of multi-line sources Added: generated code is split into lines as the source-map builder is specified to (LF, CRLF, lone CR); CRLF and CRLF+comment gaps; 8 program prefixes (blank lines, comments, CRLF before the first statement); compiler reuse (a compiler that compiled three other programs before - one of them ending in blank lines and a comment - must emit the same code, mappings and names); the scale family (long lines: three-digit VLQ deltas; hundreds of names and lines); plugin expression nodes that write a separator through each public writer method (WriteRune / WriteString with and without line breaks, WriteNewline, WriteSpace) around operands of 4 programs. Skipper plugin (round 12): every family program with a block comment in front of each single token, lexed through a token interceptor that consumes the comment itself with ReadChar and then calls next(); the oracle reads the source with the consumed bytes blanked.",
 		Assume:   []string{"columns: UTF-16 code units or bytes are both accepted (identical for ASCII)", "string literals are compared by kind only (quote style and escaping may change)"},
 		QuickSec: 300, ThorSec: 2400, Run: c08Run, Replay: c08Replay,
 		Evals: "maps_checked", Nontriv: "maps_of_multiline_sources",
